@@ -38,7 +38,7 @@ struct Conn {
         sockaddr_in d{}; d.sin_family = AF_INET; d.sin_addr.s_addr = htonl(INADDR_LOOPBACK); d.sin_port = htons(port);
         int one = 1; setsockopt(fd, IPPROTO_TCP, 1 /*TCP_NODELAY*/, &one, sizeof one);
         int r = -1;
-        for (int attempt = 0; attempt < 50 && (r = ::connect(fd, (sockaddr *)&d, sizeof d)) != 0 && (errno == EADDRNOTAVAIL || errno == EAGAIN || errno == EINTR); attempt++) usleep(20000);
+        for (int attempt = 0; attempt < 50 && (r = connect_eintr(fd, (sockaddr *)&d, sizeof d)) != 0 && (errno == EADDRNOTAVAIL || errno == EAGAIN); attempt++) usleep(20000);
         if (r != 0) return false;
         sockaddr_in a{}; socklen_t l = sizeof a; getsockname(fd, (sockaddr *)&a, &l);
         key = "t" + std::to_string(ntohs(a.sin_port));
@@ -57,7 +57,21 @@ struct Conn {
         if (::bind(fd, (sockaddr *)&a, sizeof a) != 0) return false;
         attach(s);
         sockaddr_un d{}; d.sun_family = AF_UNIX; strcpy(d.sun_path, path.c_str());
-        return ::connect(fd, (sockaddr *)&d, sizeof d) == 0;
+        return connect_eintr(fd, (sockaddr *)&d, sizeof d) == 0;
+    }
+    // connect() interrupted by a signal continues in the background: wait for it and fetch its result
+    static int connect_eintr(int fd, sockaddr *a, socklen_t l) {
+        int r = ::connect(fd, a, l);
+        if (r == 0 || errno != EINTR) return r;
+        for (;;) {
+            pollfd pf{fd, POLLOUT, 0};
+            int pr = ::poll(&pf, 1, 20000);
+            if (pr < 0 && errno == EINTR) continue;
+            if (pr <= 0) { errno = ETIMEDOUT; return -1; }
+            int err = 0; socklen_t el = sizeof err; getsockopt(fd, SOL_SOCKET, SO_ERROR, &err, &el);
+            if (err) { errno = err; return -1; }
+            return 0;
+        }
     }
     void close() {
         if (fd >= 0) { ::close(fd); fd = -1; }
@@ -77,6 +91,7 @@ struct Conn {
         while (n > 0) {
             pollfd pf{fd, (short)(POLLOUT | (eof ? 0 : POLLIN)), 0};
             int r = ::poll(&pf, 1, timeout_ms);
+            if (r < 0 && errno == EINTR) continue;     // e.g. libFuzzer's SIGALRM watchdog timer
             if (r <= 0) { timed_out = (r == 0); return false; }
             if (pf.revents & POLLIN) {
                 char tmp[65536]; ssize_t k = ::recv(fd, tmp, sizeof tmp, MSG_DONTWAIT);
@@ -94,11 +109,14 @@ struct Conn {
     int fill(int ms = -2) {
         if (eof) return 0;
         pollfd pf{fd, POLLIN, 0};
-        int r = ::poll(&pf, 1, ms == -2 ? timeout_ms : ms);
+        int r;
+        // a signal (libFuzzer arms a periodic SIGALRM for its watchdog) must not be mistaken for a failed read
+        while ((r = ::poll(&pf, 1, ms == -2 ? timeout_ms : ms)) < 0 && errno == EINTR) {}
         if (r == 0) { timed_out = true; return -1; }
         if (r < 0) { err = true; return -2; }
         char tmp[65536];
-        ssize_t n = ::recv(fd, tmp, sizeof tmp, 0);
+        ssize_t n;
+        while ((n = ::recv(fd, tmp, sizeof tmp, 0)) < 0 && errno == EINTR) {}
         if (n == 0) { eof = true; return 0; }
         if (n < 0) { if (errno == ECONNRESET) { eof = true; err = true; return 0; } err = true; return -2; }
         buf.append(tmp, (size_t)n);
